@@ -31,6 +31,15 @@ type raceState struct {
 	log     []raceAccess
 	seen    map[string]bool
 	enabled bool
+	order   []lockEdge // lock-order edges: a mutex acquired while another is held
+}
+
+// lockEdge: role acquired `to` (exclusively or not) while holding `from`.
+type lockEdge struct {
+	role         int
+	from, to     *Value
+	fromX, toX   bool
+	site         string
 }
 
 func (ex *Exec) raceRecord(loc interface{}, write bool) {
@@ -83,6 +92,14 @@ func (ex *Exec) raceLock(name string, recv Value) {
 	p, ok := recv.(Ptr)
 	if !ok || p.cell == nil {
 		return
+	}
+	if strings.HasSuffix(name, ".RLock") || strings.HasSuffix(name, ".Lock") {
+		x := strings.HasSuffix(name, ".Lock")
+		for h, hx := range rs.held {
+			if h != p.cell {
+				rs.order = append(rs.order, lockEdge{role: rs.role, from: h, to: p.cell, fromX: hx, toX: x, site: ex.repoSite()})
+			}
+		}
 	}
 	switch {
 	case strings.HasSuffix(name, ".RLock"):
@@ -157,6 +174,26 @@ func init() {
 		rs := ex.race
 		ex.race = nil
 		ex.lockHook = nil
+		// lock-order inversion between the two operations: one takes B while holding A, the other A while holding B
+		// (not all four in shared mode): two goroutines can block each other forever
+		dl := label
+		if i := strings.Index(label, "/"); i > 0 {
+			dl = label[:i] + "/lock-order-allows-progress"
+		}
+		ex.hits[dl]++
+		inverted := ""
+		for _, e1 := range rs.order {
+			for _, e2 := range rs.order {
+				if e1.role == 1 && e2.role == 2 && e1.from == e2.to && e1.to == e2.from && (e1.fromX || e1.toX || e2.fromX || e2.toX) {
+					inverted = fmt.Sprintf("lock-order inversion: %s acquires in one order, %s in the other", e1.site, e2.site)
+				}
+			}
+		}
+		if inverted != "" {
+			ex.report(dl, inverted, inverted, ex.model.Clone())
+		} else {
+			ex.proved[dl]++
+		}
 		fs := rs.findings()
 		if len(fs) == 0 {
 			ex.proved[label]++
